@@ -293,6 +293,28 @@ func racePass(rep *Reporter, pk concPkg, user, tier string) int {
 				fn = normNumRe.ReplaceAllString(m[1], "")
 			}
 			i := strings.Index(r.Stderr, "WARNING: DATA RACE")
+			// the two access stacks of the first report; a race in which neither access
+			// happens in (or below) the generated file is a defect of the harness
+			inGenerated := false
+			for _, blk := range strings.Split(r.Stderr[i:], "\n\n") {
+				t := strings.TrimSpace(blk)
+				if strings.HasPrefix(t, "WARNING: DATA RACE") {
+					t = strings.TrimSpace(strings.TrimPrefix(t, "WARNING: DATA RACE"))
+				}
+				if strings.HasPrefix(t, "Read at") || strings.HasPrefix(t, "Write at") || strings.HasPrefix(t, "Previous read at") || strings.HasPrefix(t, "Previous write at") ||
+					strings.HasPrefix(t, "Atomic") || strings.HasPrefix(t, "Previous atomic") {
+					if strings.Contains(t, "derived.gen.go") {
+						inGenerated = true
+					}
+				}
+				if strings.HasPrefix(t, "Goroutine ") {
+					break
+				}
+			}
+			if !inGenerated {
+				rep.Infra("the race detector reports a data race between harness goroutines (no access inside derived.gen.go): " + head(r.Stderr[i:], 600))
+				return
+			}
 			rep.Violation("data-race|"+fn, "the race detector reports a data race in a free run of the generated code: "+head(r.Stderr[i:], 1500),
 				map[string]interface{}{"engine": "e3a-race", "package": pk.name, "report": head(r.Stderr[i:], 4000)})
 		}
